@@ -1382,7 +1382,7 @@ func (c *Ctx) runReject(walker *ssa.Function) {
 	p := c.P
 	nf := p.Func(p.Arg, "NewFunc")
 	lifter := c.role("REJECT", "lifter")
-	isStruct := p.Func(p.Arg, "isStruct")
+	isStruct := c.markerTypePredicate()
 	errReturnGuardedBy := func(f *ssa.Function, pred func(l core.Lit) bool) (bool, string) {
 		// the error values f can return (seen through private helpers that produce them)
 		reach := map[ssa.Value]bool{}
@@ -1941,7 +1941,7 @@ func (c *Ctx) runStructWalk(walker *ssa.Function) {
 			}
 		}
 		if l.Kind == "call" && !l.Pol {
-			if cl, ok := l.Of.(*ssa.Call); ok && cl.Common().StaticCallee() != nil && cl.Common().StaticCallee().Name() == "isStructField" {
+			if cl, ok := l.Of.(*ssa.Call); ok && cl.Common().StaticCallee() != nil && cl.Common().StaticCallee() == c.markerFieldPredicate() {
 				skipMarker = true
 			}
 		}
@@ -2129,7 +2129,11 @@ func (c *Ctx) markerFieldPredicate() *ssa.Function {
 			if b, ok := in.(*ssa.BinOp); ok && b.Op == token.EQL {
 				for _, v := range []ssa.Value{b.X, b.Y} {
 					if ld, ok := v.(*ssa.UnOp); ok {
-						if _, isG := ld.X.(*ssa.Global); isG {
+						x := ld.X
+						if fa, isF := x.(*ssa.FieldAddr); isF {
+							x = fa.X // a field of a package-level struct (a shared marker StructField)
+						}
+						if _, isG := x.(*ssa.Global); isG {
 							found = true
 						}
 					}
@@ -2187,4 +2191,27 @@ func interfaceDescriptor(g *ssa.Global) bool {
 		}
 	}
 	return ok && n == 1
+}
+
+// markerTypePredicate: the func(reflect.Type) bool that asks the marker-field predicate about the fields of a type
+// (found by shape, whatever it is called).
+func (c *Ctx) markerTypePredicate() *ssa.Function {
+	mf := c.markerFieldPredicate()
+	if mf == nil {
+		return nil
+	}
+	for _, f := range c.P.ArgFuncs() {
+		if f.Parent() != nil || len(f.Params) != 1 || core.TypeStr(f.Params[0].Type()) != "reflect.Type" {
+			continue
+		}
+		if f.Signature.Results().Len() != 1 || !types.Identical(f.Signature.Results().At(0).Type(), types.Typ[types.Bool]) {
+			continue
+		}
+		for _, ci := range core.Calls(f) {
+			if ci.Common().StaticCallee() == mf {
+				return f
+			}
+		}
+	}
+	return nil
 }
